@@ -83,6 +83,7 @@ type cand struct {
 	kind             string // "fail" | "rest" | "digest" | "sample"
 	sig              string // stream-level signature (empty for samples)
 	note             string
+	inLen            int // length of the generated input
 }
 
 // sigAgg: every difference the join sees is classified at once from the
@@ -94,6 +95,36 @@ type sigAgg struct {
 }
 
 const repsPerSig = 4
+
+// offer keeps the repsPerSig candidates with the smallest inputs (ties: unit, item).
+func (a *sigAgg) offer(c cand) {
+	less := func(x, y cand) bool {
+		if x.inLen != y.inLen {
+			return x.inLen < y.inLen
+		}
+		if x.unit != y.unit {
+			return x.unit < y.unit
+		}
+		if x.item != y.item {
+			return x.item < y.item
+		}
+		return x.tpos < y.tpos
+	}
+	if len(a.reps) < repsPerSig {
+		a.reps = append(a.reps, c)
+	} else {
+		worst := 0
+		for i := range a.reps {
+			if less(a.reps[worst], a.reps[i]) {
+				worst = i
+			}
+		}
+		if !less(c, a.reps[worst]) {
+			return
+		}
+		a.reps[worst] = c
+	}
+}
 
 type tstat struct {
 	StrictOK     int64 `json:"strict_ok"`
@@ -371,6 +402,16 @@ func (p *parent) joinChunk(uid int, sw, pw *proc, hs, hp chunkHdr, lc *local) er
 	for i := 0; i < int(hs.n); i++ {
 		item := int(hs.first) + i
 		lc.items++
+		ls, k1 := binary.Uvarint(bs)
+		lp, k2 := binary.Uvarint(bp)
+		if k1 <= 0 || k2 <= 0 {
+			return fmt.Errorf("unit %q: malformed record stream", u.name)
+		}
+		if ls != lp {
+			return fmt.Errorf("generator of unit %q is not deterministic: item %d has %d bytes in the strict worker and %d in the permissive worker", u.name, item, ls, lp)
+		}
+		bs, bp = bs[k1:], bp[k2:]
+		inLen := int(ls)
 		for tpos, ti := range u.targets {
 			nf := len(targets[ti].fields)
 			rs, ns, ok1 := readRec(bs, nf)
@@ -402,9 +443,7 @@ func (p *parent) joinChunk(uid int, sw, pw *proc, hs, hp chunkHdr, lc *local) er
 					lc.sigs[sig] = a
 				}
 				a.count++
-				if len(a.reps) < repsPerSig {
-					a.reps = append(a.reps, cand{unit: uid, item: item, tpos: tpos, kind: kind, sig: sig, note: note})
-				}
+				a.offer(cand{unit: uid, item: item, tpos: tpos, kind: kind, sig: sig, note: note, inLen: inLen})
 			}
 			sok, pok := rs.code == 0, rp.code == 0
 			if pok {
@@ -480,9 +519,7 @@ func (p *parent) merge(lc *local) {
 		}
 		g.count += a.count
 		for _, r := range a.reps {
-			if len(g.reps) < repsPerSig {
-				g.reps = append(g.reps, r)
-			}
+			g.offer(r)
 		}
 	}
 	p.sampleC = append(p.sampleC, lc.sampleC...)
@@ -645,7 +682,8 @@ func run(c *ev.Ctx) {
 		"digest = SHA-256 over a canonical token stream of the decoded value: every exported field recursively (reflection), dynamic types of interfaces, nil-ness and length of slices/maps/pointers, map entries sorted by key, big.Int by value, time.Time by Unix seconds + nanoseconds + zone offset, elliptic curves by name; unexported fields (lazy caches), funcs and channels are not observable and are skipped",
 		"asn1.AllowPermissiveParsing is set exactly once per worker process, before the first parse; the parent process never parses in permissive mode",
 		"generators are deterministic: the parent compares, chunk by chunk, an FNV checksum of the inputs generated by the strict and by the permissive worker; the seed corpus is built once by the parent and handed to the workers as a file",
-		"every difference seen in the streams is re-run in two fresh processes before it is reported; the witness (first differing field path, both values) comes from those runs")
+		"every difference is classified by the join itself (signature = target + kind of difference; for struct results the first differing exported top-level field, from streamed per-field zero flags and 32-bit hashes, and its direction) and counted exactly; the representatives with the smallest inputs of every signature are re-run in fresh processes (strict twice, permissive once) before anything is reported; the witness (first differing field path with both values) comes from those runs",
+		"crashes and hangs of a decoder are C01's property: a worker that dies or stalls only makes the run incomplete")
 
 	if c.Replay != nil {
 		replay(c)
@@ -677,7 +715,7 @@ func run(c *ev.Ctx) {
 
 	c.Rule(fmt.Sprintf("every element of a closed list of %d units is evaluated by every target of the unit in a strict and in a permissive worker process and the results are joined by (unit, item, target). "+
 		"Targets: asn1.Unmarshal into %d Go types (int, int64, *big.Int, bool, string, []byte, ObjectIdentifier, BitString, time.Time, RawValue, interface{}, pkix.RDNSequence, []pkix.Extension, three tagged structs), x509.ParseCertificate, x509.ParseTBSCertificate, x509.ParseCertificateRequest. "+
-		"Units: G-bytes = all byte strings of length <= 2 for every target and all of length 3 for 5 primitive asn1 targets (int, string, []byte, RawValue, interface{}); "+
+		"Units: G-bytes = all byte strings of length <= 2 for every target and all of length 3 for 3 primitive asn1 targets (string, RawValue, interface{}); "+
 		"header model = %d identifier octets x 8 length forms (minimal, 3 non-minimal long forms, +1, -1, long +1, indefinite) x contents (%s) x 3 trailers, for all asn1 targets; "+
 		"time model = product of per-component alphabets for UTCTime and GeneralizedTime contents (years incl. 49/50, out-of-range neighbours, 9 zone forms); "+
 		"G-tlv = for each seed (%d ASN.1 primitive seeds incl. encodings on every mode-dependent branch, minted certificates + repository certificate fixtures, %d certificates of the field model (all extensions at once; one well-formed alternative each%s), CSRs) the seed, every (TLV node x %d operators) single mutation, every single-byte substitution from {00,01,7f,80,ff,b^01,b^80}, every truncation%s; "+
